@@ -2,6 +2,7 @@ import configparser
 import math
 import re
 import collections
+import itertools
 
 import pyparsing
 
@@ -299,6 +300,9 @@ class _TableFormSection(object):
 
     interpolation = section.get(u"interpolation", u"cubic_spline")
     x,y = self._parse_data(section_name, section)
+    for v in itertools.chain(x, y):
+      if math.isnan(v) or math.isinf(v):
+        raise ConfigParserException("The data of '{}' must be finite numbers, found: {}".format(section_name, v))
 
     table_tuple = TableFormTuple(
       name = name, 
